@@ -1,7 +1,14 @@
 #!/bin/bash
 # Build the harness (path-depends on /repo/avro with all codec features). Serialised with flock so
 # concurrent checks do not fight over the target directory.
-set -e
+# Normal build: with the verification hooks of /repo (harness feature `hooks`). If that does not compile
+# but a build WITHOUT the hooks does, the change under test broke only the hook code (which is off in
+# production): the checks then run without them - C03 without state merging, C20 with the drain order
+# left to the hash seed - and say so in their evidence (`caps_hit`, exhaustive=false).
 cd "$(dirname "$0")/harness"
 export CARGO_NET_OFFLINE=true
-exec flock target.lock cargo build --release --offline
+if flock target.lock cargo build --release --offline; then
+  exit 0
+fi
+echo "build with hooks failed; trying without the hooks" >&2
+exec flock target.lock cargo build --release --offline --no-default-features
